@@ -822,6 +822,29 @@ def _raises_topology(g, node):
     return node.kind == 'stmt' and isinstance(node.ast, ast.Raise) and node.ast.exc is not None and 'HsmTopologyException' in norm(node.ast.exc)
 
 
+def cursor_alias_names(f, selfn):
+    """locals that only ever hold a fresh copy of the cursor (every definition is exactly `self.temp.fun`, also as an element of a tuple assignment)"""
+    vals = {}
+    for n in walk_shallow(f.node):
+        if isinstance(n, ast.Assign):
+            for t in n.targets:
+                if isinstance(t, ast.Tuple) and isinstance(n.value, ast.Tuple) and len(t.elts) == len(n.value.elts):
+                    for a, b in zip(t.elts, n.value.elts):
+                        if isinstance(a, ast.Name):
+                            vals.setdefault(a.id, []).append(b)
+                elif isinstance(t, ast.Name):
+                    vals.setdefault(t.id, []).append(n.value)
+                else:
+                    for x in ast.walk(t):
+                        if isinstance(x, ast.Name) and isinstance(x.ctx, ast.Store):
+                            vals.setdefault(x.id, []).append(None)
+        elif isinstance(n, (ast.AugAssign, ast.For)):
+            for x in ast.walk(n.target):
+                if isinstance(x, ast.Name):
+                    vals.setdefault(x.id, []).append(None)
+    return {k for k, vs in vals.items() if vs and all(v is not None and dotted(v) == selfn + '.temp.fun' for v in vs)}
+
+
 def repeat_parent_guard(g, f, h, selfn):
     """inside loop h: a test `previous == temp.fun` (previous = cursor value saved before the SUPER step) whose true edge raises
     HsmTopologyException"""
@@ -832,16 +855,31 @@ def repeat_parent_guard(g, f, h, selfn):
         cp = compare_parts(t.ast)
         if not cp or cp[1] not in (ast.Eq, ast.Is):
             continue
-        sides = [dotted(cp[0]), dotted(cp[2])]
-        if selfn + '.temp.fun' not in sides:
+        aliases = cursor_alias_names(f, selfn)
+
+        def is_cur(x):
+            return dotted(x) == selfn + '.temp.fun' or (isinstance(x, ast.Name) and x.id in aliases)
+        lit = [x for x in (cp[0], cp[2]) if dotted(x) == selfn + '.temp.fun']
+        if lit:
+            other = [x for x in (cp[0], cp[2]) if x is not lit[0]]         # the cursor itself against a saved value (whatever that local is called or holds)
+        elif is_cur(cp[0]) != is_cur(cp[2]):
+            other = [x for x in (cp[0], cp[2]) if not is_cur(x)]           # a fresh copy of the cursor against a saved value
+        else:
             continue
-        other = [x for x in (cp[0], cp[2]) if dotted(x) != selfn + '.temp.fun']
         if not other or not isinstance(other[0], ast.Name):
             continue
         prev = other[0].id
-        # prev is assigned from temp.fun inside the loop
-        saved = [n for n in g.nodes if n.kind == 'stmt' and isinstance(n.ast, ast.Assign) and any(x is n.ast for x in ast.walk(h.stmt))
-                 and any(isinstance(tg, ast.Name) and tg.id == prev for tg in n.ast.targets) and dotted(n.ast.value) == selfn + '.temp.fun']
+        # prev is assigned from temp.fun (or from a fresh copy of it) inside the loop, also as one element of a tuple assignment
+        saved = []
+        for n in g.nodes:
+            if n.kind == 'stmt' and isinstance(n.ast, ast.Assign) and any(x is n.ast for x in ast.walk(h.stmt)):
+                for tg in n.ast.targets:
+                    if isinstance(tg, ast.Name) and tg.id == prev and is_cur(n.ast.value):
+                        saved.append(n)
+                    elif isinstance(tg, ast.Tuple) and isinstance(n.ast.value, ast.Tuple) and len(tg.elts) == len(n.ast.value.elts):
+                        for a_, b_ in zip(tg.elts, n.ast.value.elts):
+                            if isinstance(a_, ast.Name) and a_.id == prev and is_cur(b_):
+                                saved.append(n)
         raises = [n for n in g.nodes if _raises_topology(g, n) and guarded_by_edge(g, n, t, 'true')]
         if saved and raises:
             return t, cp[1]
@@ -883,8 +921,9 @@ def progress_rules(run, model, rule='HSM-PROGRESS'):
             gcp = compare_parts(h.ast)
             own_sites = [(n, c, sigs) for n, c, txt, sigs in sites if n in own or n is h]
             kind = None
-            # (1) cursor-compare loop: guard compares temp.fun with a local handler
-            if gcp and selfn + '.temp.fun' in (dotted(gcp[0]), dotted(gcp[2])) and gcp[1] in (ast.NotEq, ast.IsNot):
+            # (1) cursor-compare loop: guard compares temp.fun (or a local that only ever holds a fresh copy of it) with a local handler
+            cal_ = cursor_alias_names(f, selfn)
+            if gcp and gcp[1] in (ast.NotEq, ast.IsNot) and any(dotted(x_) == selfn + '.temp.fun' or (isinstance(x_, ast.Name) and x_.id in cal_) for x_ in (gcp[0], gcp[2])):
                 kind = 'cursor-walk'
                 t, op = repeat_parent_guard(g, f, h, selfn)
                 ok = t is not None
